@@ -1056,3 +1056,66 @@ def field_writes_transitive(inst):
                     tw[k] |= tw[c]
                     changed = True
     return tw
+
+
+# -------------------------------------------------------------------------------------------------
+# S19  a node closed behind the non-skip length is pulled into it
+# -------------------------------------------------------------------------------------------------
+def s19_close_bump(inst, rep, rid="S19"):
+    rep.rule(rid, "DOM: in CstData::close every path to the return either passes the 'mark is not beyond the non-skip length' side of a "
+                  "comparison between the mark and non_skip_len, or passes a store that raises non_skip_len to a value computed from the mark: "
+                  "an (empty) node opened after trailing skipped tokens must be covered by the non-skip length once it is closed, otherwise it "
+                  "falls outside its parent's extent and the parent ends with a skipped token")
+    cl = inst.fn("CstData::close")
+    pr = P(cl)
+    mark_params = [i for i in range(1, cl.argc + 1) if cl.local_ty(i).endswith("MarkOpened")]
+    if not mark_params:
+        raise MissingAnchor("%s: CstData::close has no MarkOpened parameter" % inst.label)
+
+    def is_mark(e):
+        return any(x[0] == "param" and x[1] in mark_params for x in walk(e))
+
+    def is_nsl(e):
+        if mentions_field(e, "CstData", "non_skip_len"):
+            return True
+        # a local that was assigned from non_skip_len (`let len = self.non_skip_len - 1`)
+        for x in walk(e):
+            if x[0] == "local":
+                for d in cl.defs().get(x[1], []):
+                    if d[2] == "assign" and mentions_field(pr.rvalue(d[3]["rv"]), "CstData", "non_skip_len"):
+                        return True
+        return False
+
+    store_blocks = set()
+    for pt, adt, f, val, st in stores(cl):
+        if adt == "CstData" and f == "non_skip_len" and is_mark(val):
+            store_blocks.add(pt[0])
+    ok_edges = set()
+    for b in sorted(cl.reachable()):
+        t = cl.blocks[b]["t"]
+        if t["t"] != "switch" or [v for v, _ in t["arms"]] != [0]:
+            continue
+        e = pr.operand(t["d"])
+        if e[0] != "bin" or e[1] not in ("Gt", "Lt", "Ge", "Le"):
+            continue
+        a, c = e[2], e[3]
+        if is_mark(a) and is_nsl(c) and not is_mark(c):
+            greater_when_true = e[1] in ("Gt", "Ge")      # mark > len / mark >= len
+        elif is_nsl(a) and is_mark(c) and not is_mark(a):
+            greater_when_true = e[1] in ("Lt", "Le")      # len < mark
+        else:
+            continue
+        false_tgt = t["arms"][0][1]
+        true_tgt = t["else"]
+        ok_edges.add((b, false_tgt) if greater_when_true else (b, true_tgt))
+    path = flow.find_path(cl, (0, -1), flow.is_return, blocks_point=lambda p, it: p[0] in store_blocks and p[1] == 0,
+                          edge_ok=lambda s, t, lab: (s, t) not in ok_edges and t not in store_blocks)
+    if 0 in store_blocks:
+        path = None
+    if path is None and (store_blocks or ok_edges):
+        rep.ok(rid, "%s CstData::close: a mark beyond the non-skip length raises non_skip_len (%d store, %d guarded edge)" % (inst.label, len(store_blocks), len(ok_edges)))
+    else:
+        rep.violation(rid, "CstData::close|no-bump", "%s: CstData::close can return without covering the closed node by non_skip_len when the node was opened "
+                      "behind trailing skipped tokens (no comparison of the mark with non_skip_len / no store raising it on that path): an empty node created "
+                      "after a skipped token becomes a sibling of its parent, and the parent ends with the skipped token" % inst.label,
+                      site(cl, (0, 0)), flow.describe_path(cl, path) if path else None)
